@@ -53,13 +53,21 @@ def leaf_node(kind, name):
     raise ValueError(kind)
 
 
+ODD_NAMES = ['None', 'is', 'self', 'yield', 'class', 'type', 'A', 'AB', 'a', '_', '__init__', 'x1', 'X_', 'in_', 'Dzn']
+
+
 def shape_to_doc(forest, own_names):
+    """own_names: False = every declaration called X; True = N0, N1, ...; 'odd' = Python keywords / builtins,
+    names of the namespaces themselves, case variants, underscores (cycling)"""
     counter = itertools.count()
 
     def conv(tree):
         label, kids = tree
         if kids is None:
-            name = f'N{next(counter)}' if own_names else 'X'
+            if own_names == 'odd':
+                name = ODD_NAMES[next(counter) % len(ODD_NAMES)]
+            else:
+                name = f'N{next(counter)}' if own_names else 'X'
             return leaf_node(LEAF_KINDS[label], name)
         return ['ns', NS_NAMES[label], [conv(k) for k in kids]]
 
@@ -170,7 +178,8 @@ def work(job):
             k += 1
             if k % nslots != idx:
                 continue
-            for own in (False, True):
+            nnodes = sum(1 for _ in _shape_nodes(forest))
+            for own in (False, True) + (('odd',) if nnodes <= 3 else ()):
                 case = {'doc': shape_to_doc(forest, own)}
                 _one(case, part)
                 if k % 50021 == 1:
@@ -203,6 +212,13 @@ def _one(case, part):
     part.outcome(f'declarations={min(ndecl, 9)}')
     for key, what in res:
         part.violation(key, what, case)
+
+
+def _shape_nodes(forest):
+    for tree in forest:
+        yield tree
+        if tree[1] is not None:
+            yield from _shape_nodes(tree[1])
 
 
 def _nodes(doc):
@@ -245,7 +261,7 @@ def explore(ctx):
     for part in pmap(work, jobs):
         ctx.merge(part)
     ctx.rule = (f'every document shape with <= {max_nodes} nodes (11 leaf kinds, namespaces [A],[B],[A,B],[AB], '
-                'arbitrary nesting and re-opening) x 2 naming sweeps, plus the payload space per kind at root and '
+                'arbitrary nesting and re-opening) x 2 naming sweeps (3 up to 3 nodes: Python keywords / namespace names / case variants), plus the payload space per kind at root and '
                 'inside namespace A.B; each shape generated exactly once; non-trivial = at least one declaration '
                 'expected; transitions = node-append construction steps')
     ctx.bounds = {'nodes': max_nodes, 'payload': 'every combination of ports<=2, events<=2, formals<=2, nested types<=2, '
